@@ -235,6 +235,9 @@ class World:
             with xfn.CallLog() as log:
                 if kind == "grow":
                     grow(ev[1], crop=self.live, verbosity=0)
+                elif len(finished) % 2:
+                    # (the ids as a one-shot iterator)
+                    self.live.grow((i_ for i_ in ids), verbosity=0)
                 else:
                     self.live.grow(ids, verbosity=0)
             want = [e for i in ids for e in self.batches[i]]
